@@ -663,6 +663,23 @@ func genC03(b *builder) {
 				n = 1 + r.Intn(2)
 			}
 			var at time.Duration
+			if rt.Path == "broadcast" && r.Intn(40) == 0 {
+				// a busy network: hundreds of datagrams that must be ignored, one after the other, S's reply behind them
+				m := pick(r, 130, 257, 300, 520)
+				gap := T / time.Duration(2*m)
+				if gap <= 0 {
+					gap = 1
+				}
+				for i := 0; i < m; i++ {
+					cl := pick(r, "wrongserial", "wrongserial", "wronglen", "serial0")
+					d := b.datagram(cl, op, &a, serial)
+					if len(d) > 80 {
+						d = d[:80]
+					}
+					at += gap
+					st.Plan.Emits = append(st.Plan.Emits, b.emit(rt, known, at, d, cl))
+				}
+			}
 			for i := 0; i < n; i++ {
 				cl := pick(r, classes03...)
 				if r.Intn(3) == 0 {
@@ -967,6 +984,22 @@ func genC09(b *builder) {
 					if r.Intn(2) == 0 {
 						valid(pick(r, T-1, T/2, T+1))
 					}
+				case 5: // a burst: many irrelevant datagrams at the very same instant, the reply well after them
+					if r.Intn(3) > 0 {
+						valid(b.early(T))
+						break
+					}
+					n := pick(r, 20, 45, 90, 150, 240)
+					at := b.early(T) / 2
+					for i := 0; i < n; i++ {
+						cl := pick(r, "wrongserial", "wrongserial", "serial0")
+						st.Plan.Emits = append(st.Plan.Emits, b.emit(rt, known, at, b.datagram(cl, op, &a, serial), cl))
+					}
+					if r.Intn(2) == 0 {
+						valid(at) // in the middle of the burst
+					} else {
+						valid(at + 1 + time.Duration(r.Int63n(int64(T-at))))
+					}
 				case 4: // ICMP port unreachable (connected UDP only; harmless elsewhere)
 					st.Plan.Emits = append(st.Plan.Emits, engine.Emit{After: b.early(T), Via: "icmp"})
 				default:
@@ -1044,6 +1077,20 @@ func genC11(b *builder) {
 					last = d
 				}
 				st.Plan.Emits = append(st.Plan.Emits, engine.Emit{After: b.delay(T), Via: "udp", From: from, Data: d, Class: cl})
+			}
+		}
+		if r.Intn(40) == 0 {
+			// a large site: a hundred and more controllers answer within the window, one after the other
+			m := pick(r, 65, 129, 200, 300)
+			gap := T / time.Duration(2*m)
+			if gap <= 0 {
+				gap = 1
+			}
+			at := time.Duration(r.Int63n(int64(T) / 4))
+			for i := 0; i < m; i++ {
+				at += gap
+				d := model.GenReply(r, model.GetDevice, &a, model.GenSerial(r), model.ReplyOpts{})
+				st.Plan.Emits = append(st.Plan.Emits, engine.Emit{After: at, Via: "udp", From: fmt.Sprintf("%s.%d:60000", b.prefix, 10+i%80), Data: d, Class: "valid"})
 			}
 		}
 		r.Shuffle(len(st.Plan.Emits), func(i, j int) { st.Plan.Emits[i], st.Plan.Emits[j] = st.Plan.Emits[j], st.Plan.Emits[i] })
